@@ -310,6 +310,7 @@ class Session:
         if kind == "resolve":
             implicit, external = step[1], step[2]
             what = f"resolve_aliases(implicit={implicit}, external={external})"
+            mods0 = sorted(coll.members)
             unresolved1, it1 = call("total", loader.resolve_aliases, implicit=implicit, external=external, what=what)
             self.classes[f"step:resolve:implicit={implicit}:external={external}"] += 1
             fails = self.check_all_or_nothing(what)
@@ -327,6 +328,7 @@ class Session:
             detail = {
                 "wildcards_expanded_by_second_call": late, "late_sources": {k: snap1[k][1] for k in late}, "newly_loaded": newly,
                 "step_index": self.step_index, "first_call": {"unresolved": sorted(unresolved1), "iterations": it1},
+                "loaded_by_first_call": sorted(set(mods1) - set(mods0)),
             }
             diff = sorted(k for k in set(snap1) | set(snap2) if snap1.get(k) != snap2.get(k))
             # copies of wildcard placeholders: members named '.../*' whose target is itself a placeholder member
@@ -475,6 +477,39 @@ def _is_wildcard_born(case, fail: Fail) -> bool:
     return fail.clause == "all-or-nothing" and d.get("origin") in ("wildcard-expansion", "alias-member") and fail.kind == "partial:" + d["origin"]
 
 
+def _second_expansion_pass_explains(case, d) -> bool:
+    """Variant of the single-pass finding without any placeholder changing: the first call loaded a package (in its
+    expansion pass or while resolving); that package's modules are only walked by the *next* call's expansion pass,
+    which — with the caller's `external` setting and the packages now present — dereferences aliases in it.
+    Recognised iff, in a fresh loader, after the same first call the expansion pass alone (expand_wildcards over the
+    collection, no resolution) already changes an alias that the failure reports as changed and that lives in a
+    package the first call loaded."""
+    idx = d.get("step_index")
+    steps = case["steps"]
+    changed = d.get("changed") or []
+    loaded = set(d.get("loaded_by_first_call") or ())
+    candidates = [k for k in changed if k.split(".")[0] in loaded]
+    if idx is None or idx >= len(steps) or steps[idx][0] != "resolve" or not candidates:
+        return False
+    session = Session(case)
+    try:
+        for step in steps[:idx]:
+            if session.step(step):
+                return False
+        implicit, external = steps[idx][1], steps[idx][2]
+        with time_limit(CALL_BUDGET_S * 20):
+            session.loader.resolve_aliases(implicit=implicit, external=external)
+            before, _ = session.snapshot()
+            for module in list(session.loader.modules_collection.members.values()):
+                session.loader.expand_wildcards(module, external=external)
+            after, _ = session.snapshot()
+        return any(before.get(k) != after.get(k) for k in candidates)
+    except (Exception, CaseTimeout):  # noqa: BLE001
+        return False
+    finally:
+        session.close()
+
+
 def _is_late_expansion(case, fail: Fail) -> bool:
     """fixpoint fails and the second resolve_aliases call expanded a wildcard import that the first call had left in
     place (wildcard expansion is one pass at the start of resolve_aliases, not part of the iteration: a source that is
@@ -486,6 +521,8 @@ def _is_late_expansion(case, fail: Fail) -> bool:
     looking the source of every late wildcard up there."""
     d = fail.detail or {}
     sources = d.get("late_sources") or {}
+    if fail.clause == "fixpoint" and fail.kind in ("alias-state-changes", "unresolved-set-differs") and d.get("loaded_by_first_call"):
+        return _second_expansion_pass_explains(case, d)
     if not (fail.clause == "fixpoint" and fail.kind.endswith(":late-wildcard-expansion") and sources):
         return False
     idx = d.get("step_index")
